@@ -146,7 +146,11 @@ func buildC14(c C14Case) (gen.ProgCase, string) {
 			if l.Place == "subscript-raw" {
 				esc = 3
 			}
-			body = append(body, ref.Cmd{K: "let", Var: v, Expr: &ref.Expr{Op: "map", Keys: []string{src, src + "x"}, Args: []*ref.Expr{str("hit", 0), str("miss", 0)}}},
+			keys, vals := []string{src, src + "x"}, []*ref.Expr{str("hit", 0), str("miss", 0)}
+			if len(src)%2 == 0 {
+				keys, vals = []string{src + "x", src, "zz" + src}, []*ref.Expr{str("miss", 0), str("hit", 0), str("miss2", 0)} // (the literal is not the first key)
+			}
+			body = append(body, ref.Cmd{K: "let", Var: v, Expr: &ref.Expr{Op: "map", Keys: keys, Args: vals}},
 				ref.Cmd{K: "print", Expr: &ref.Expr{Op: "ref", Name: v, Access: []ref.Access{{Kind: "expr", Expr: str(src, esc)}}}})
 			w = "hit"
 		case "mapkey":
